@@ -479,3 +479,17 @@ def _xc_text_model():
 
 
 text_pack.static_checks = [_xc_text_model]
+
+
+@contract(TX + "Text.render", property="C01", alias="wrong-mode", inline=TINL, replayable=False)
+class text_render_wrong_mode:
+    """Text reports FIXED and FLOW: a box size is refused (ValueError from unpacking the size) before the layout is asked."""
+    self_shape = TEXT_P
+    params = dict(size=Tup(Int, Int), focus=Bool)
+    raises = (ValueError,)
+
+    def ensures(old, s, a, r):
+        yield "never-answers", False
+
+    def on_raise(old, s, a, exc):
+        yield "layout-not-asked-nothing-cached", both(len([ev for ev in cur().trace if ev[0] == "call"]) == 0, opt_eq(s._cache_maxcol, old._cache_maxcol))
